@@ -285,14 +285,14 @@ func (m *monitor) runHistory(hc histCase) (judged int, nontrivial bool) {
 				if kv, ok := a.KAT[katInputs[st.Content.Idx]]; ok {
 					m.katCompared.Add(1)
 					if got != kv {
-						m.r.Violation(vrun.Sig{"ep": "Calculate", "pre": pre, "effect": "wrong digest"},
+						m.r.Violation(vrun.Sig{"ep": "Calculate", "pre": pre, "cause": cause, "effect": "wrong digest"},
 							fmt.Sprintf("%s %s(%q) = %s, published vector %s [%s (%s), step %d of %d on one hasher]", a.Name, ep, head(katInputs[st.Content.Idx]), got, kv, pre, cause, i+1, len(hc.Steps)), witness())
 						continue
 					}
 				}
 			}
 			if got != want {
-				m.r.Violation(vrun.Sig{"ep": "Calculate", "pre": pre, "effect": "wrong digest"},
+				m.r.Violation(vrun.Sig{"ep": "Calculate", "pre": pre, "cause": cause, "effect": "wrong digest"},
 					fmt.Sprintf("%s %s(%s, chunking %s) = %s, reference %s [%s (%s), step %d of %d on one hasher]", a.Name, ep, st.Content, st.Chunk, got, want, pre, cause, i+1, len(hc.Steps)), witness())
 			}
 			continue
